@@ -21,3 +21,15 @@ package pqmr
 //@   site call bs.UnmarshalBinary #1:
 //@     assert [the-bitset-library-only-sees-a-bit-set-whose-count-fits] len(arg1) >= 8 && pqBe64(arg1[0:8]) <= uint64(len(arg1) - 8) * 8
 //@ end
+
+// frame of the "any match in this block" test: reads the bit set only (PROVED
+// on the one-line body against the assumed frame of bitset.Any)
+//@ func (*PQMatchResults).Any
+//@   props C03
+//@   requires pqmr != nil
+//@   pure
+//@ end
+//@ func (*PQMatchResults).DoesRecordMatch
+//@   props C04
+//@   pure
+//@ end
